@@ -30,12 +30,25 @@ def _codec(cs, bo):
     return codec_for(StrEnc(Fixed(8), cs, bo))
 
 
+ALPHABET = 0  # set per task: 0 = the basic alphabet, 1 = the Unicode corner cases (BOM, astral characters, lone surrogates, invalid sequences)
+
+
 def symbols(cs, bo, term_hex):
     codec = _codec(cs, bo)
     u = unit_width(codec)
     A = "A".encode(codec)
     X = "X".encode(codec)
     NUL = "\0".encode(codec)
+    if ALPHABET == 1:
+        if codec == "utf-8":
+            return [A, X, NUL, "\U0001F600".encode(codec), b"\xc0\x80", "\ufeff".encode(codec)], u   # astral char, overlong NUL (invalid), BOM
+        if u == 1:
+            return [A, X, NUL, b"\x7f", b"\xff", b"\x80"], u
+        if u == 2:
+            hi = b"\xd8\x3d" if codec.endswith("be") else b"\x3d\xd8"                                   # a lone high surrogate
+            return [A, X, NUL, "\ufeff".encode(codec), "\U0001F600".encode(codec), hi], u
+        bad = b"\x00\x11\x00\x00" if codec.endswith("be") else b"\x00\x00\x11\x00"               # beyond U+10FFFF
+        return [A, X, NUL, "\ufeff".encode(codec), "\U0001F600".encode(codec), bad], u
     if u == 1:
         if codec == "utf-8":
             syms = [A, X, NUL, "é".encode(codec), b"\xa9"]  # 2-byte character and a lone continuation byte
@@ -110,6 +123,10 @@ def string_variants(cs, bo, tier):
         # overlapping criteria: the FIRST matching entry wins, whatever was decoded before (packets come in the order SEL 0,1,2,3)
         lko = Lookup((((Cmp("SEL", "==", "3"),), 32.0 + extra), ((Cmp("SEL", ">=", "1"),), 16.0 + extra), ((Cmp("SEL", ">=", "0"), Cmp("LEN", "<=", "255")), 0.0)))
         out.append((f"str:{dname}:lookup-overlap", StrEnc(lko, cs, bo, term, lead), ("lookup", (0, 16 + extra, 16 + extra, 32 + extra))))
+        # the first matching entry wins and later entries are not consulted: here the second entry refers to a parameter that is decoded
+        # only AFTER this field (evaluating it would fail)
+        lkl = Lookup((((Cmp("SEL", "==", "0"),), 16.0 + extra), ((Cmp("SENT", "==", "1"),), 32.0 + extra)))
+        out.append((f"str:{dname}:lookup-late-error", StrEnc(lkl, cs, bo, term, lead), ("lookup", (16 + extra, 0, 0, 0))))
         for adj in ADJUSTMENTS:
             for ref, use_cal in (("LEN", True), ("LEN", False), ("LENC", True), ("LENC", False)):
                 if tier == "quick" and ref == "LENC" and adj in ((8, 8), (1, -8)):
@@ -131,6 +148,8 @@ def binary_variants(tier):
     out.append(("bin:lookup", BinEnc(lk), ("lookup", (12, 16, 0, 0))))
     lko = Lookup((((Cmp("SEL", "==", "3"),), 32.0), ((Cmp("SEL", ">=", "1"),), 8.0), ((Cmp("SEL", ">=", "0"), Cmp("LEN", "<=", "255")), 20.0)))
     out.append(("bin:lookup-overlap", BinEnc(lko), ("lookup", (20, 8, 8, 32))))
+    lkl = Lookup((((Cmp("SEL", "==", "0"),), 12.0), ((Cmp("SENT", "==", "1"),), 32.0)))
+    out.append(("bin:lookup-late-error", BinEnc(lkl), ("lookup", (12, 0, 0, 0))))
     for adj in ADJUSTMENTS:
         for ref, use_cal in (("LEN", True), ("LEN", False), ("LENC", True), ("LENC", False)):
             d = Dyn(ref, use_cal, adj[0] if adj else None, adj[1] if adj else None)
@@ -263,6 +282,10 @@ def _task(task):
                     {"family": task["family"], "charset": task.get("charset"), "offset": offset, "via": task["via"]}, observed=str(e)[:300])
         return t
     max_units = 3 if tier == "quick" else 4
+    global ALPHABET
+    ALPHABET = task.get("alphabet", 0) if is_string else 0
+    if ALPHABET == 1:
+        max_units -= 1
     for j, (label, enc, kind) in enumerate(vs):
         if task.get("only") is not None and j != task["only"]:
             continue
@@ -289,7 +312,7 @@ def _task(task):
                         else:
                             sig["why"] = want.why if want.kind == "raised" else None
                         t.violation(sig, {"family": task["family"], "charset": [cs, bo], "offset": offset, "variant": j, "label": label,
-                                          "packet": pkt.hex(), "via": task["via"], "tier": tier},
+                                          "packet": pkt.hex(), "via": task["via"], "tier": tier, "alphabet": ALPHABET},
                                     expected=[(x.name, x.value, x.raw) for x in want.items[7:]] if want.kind == "parsed" else (want.kind, want.why),
                                     observed=obs[1][7:] if obs[0] == "parsed" else obs[:3], note=why)
         except BaseException as e:  # noqa: BLE001
@@ -389,7 +412,7 @@ def run(ctx):
     tasks = []
     for cs in CHARSETS:
         for off in offsets:
-            tasks.append({"family": "string", "charset": cs, "offset": off, "tier": ctx.tier, "via": "xml"})
+            tasks.append({"family": "string", "charset": cs, "offset": off, "tier": ctx.tier, "via": "xml", "alphabet": (off + 1) % 2 if len(offsets) == 2 else off % 2})
         tasks.append({"family": "string", "charset": cs, "offset": 5, "tier": "quick", "via": "objects"})
     for off in range(8):
         tasks.append({"family": "binary", "offset": off, "tier": ctx.tier, "via": "xml"})
@@ -401,9 +424,9 @@ def run(ctx):
         "programs": tally.programs,
         "exhaustive": True,
         "bound": ("strings: 12 charset/byte-order configurations x {whole buffer, NUL terminator, 'X' terminator, leading size 3/8/16} x "
-                  "{fixed lengths incl. non-byte and long buffers (up to 42 bytes), discrete lookup (3 entries incl. value 0, and no match; and 3 entries with OVERLAPPING criteria decoded in several orders), dynamic reference LEN/LENC raw/calibrated and LENH (calibrated 0.5x: fractional values) x "
+                  "{fixed lengths incl. non-byte and long buffers (up to 42 bytes), discrete lookup (3 entries incl. value 0, and no match; and 3 entries with OVERLAPPING criteria decoded in several orders; a list whose second entry cannot be evaluated when the first matches), dynamic reference LEN/LENC raw/calibrated and LENH (calibrated 0.5x: fractional values) x "
                   "adjustments (8,0),(8,8),(1,0),(1,-8),none} x "
-                  f"bit offsets {offsets} x every content over a 5-symbol alphabet for <= {3 if ctx.quick else 4} code units (every size-tag value family); "
+                  f"bit offsets {offsets} x every content over a 5-symbol alphabet (and, on every other offset, a 6-symbol alphabet of Unicode corner cases: BOM, an astral character, a lone surrogate / overlong / out-of-range sequence) for <= {3 if ctx.quick else 4} code units (every size-tag value family); "
                   "binary: every fixed length 1..40 bits, lookup, dynamic lengths 0..40 bits, offsets 0..7, pattern family; "
                   f"long fields of {sizes} bytes (binary fixed / from a 16-bit length, ASCII, UTF-8 with terminator at the start / middle / end, Latin-1 from a length, UTF-16 with aligned and "
                   "straddling NUL pairs, 16-bit leading size), aligned and unaligned"),
@@ -420,7 +443,7 @@ def replay(case):
         return next((v for v in t.violations if v["case"].get("variant") == case.get("variant") and v["case"].get("body_index") == case.get("body_index")), None)
     cs = case.get("charset") or [None, None]
     task = {"family": case["family"], "charset": tuple(cs), "offset": case["offset"], "tier": case.get("tier", "thorough"),
-            "via": case.get("via", "xml"), "only": case["variant"]}
+            "via": case.get("via", "xml"), "only": case["variant"], "alphabet": case.get("alphabet", 0)}
     t = _task(task)
     for v in t.violations:
         if v["case"].get("packet") == case.get("packet"):
